@@ -37,9 +37,11 @@ ASSUMPTIONS = [
     "the statement presupposes what the theorems take as CHECKED hypotheses (RegOK / ArgsOK): enum internal values are not None and python names "
     "are distinct within one input object / argument list; the model follows the code's behaviour on colliding python names (stream "
     "`collision`, correspondence only) and Props/C07_examples.lean has the witnesses that neither hypothesis can be dropped",
-    "JSON integers stay below 2^200 (float(int) OverflowError is out of scope); non-finite floats (json.loads accepts Infinity/NaN) ARE generated: "
-    "the Float scalar refuses them on both routes (fix X2), `int(inf)` inside coerce_int escapes as OverflowError (outcome class `internal`); "
-    "IntValue texts are canonical decimal (no `-0`)",
+    "non-finite floats (json.loads accepts Infinity/NaN), integers far beyond a double (10**400, 2**1024) and containers nested thousands deep ARE "
+    "generated: they must be accepted or rejected, never raise (fixes A6, A7; theorems builtin_scalars_never_raise / coerce_value_never_raises / "
+    "variables_never_raise); integers of more than ~4300 digits are outside (Python refuses to convert them to/from text, so json.loads cannot "
+    "produce them); values nested deeper than ~200 levels are checked by the direct oracle only, not against the model (Python's recursion limit is "
+    "environmental; the model's counterpart is its fuel); IntValue texts are canonical decimal (no `-0`)",
     "'structurally wrong' = array/object where a specified scalar is expected, non-string where an enum is expected, non-object where an input "
     "object is expected; the library's lenient scalar coercions (Int from numeric string / integral float / bool, String and ID from numbers, "
     "Boolean by truthiness of scalars, Float from numeric string) are pinned by the suite and are modelled, not flagged; Python `bool` is an `int`",
@@ -50,6 +52,7 @@ ASSUMPTIONS = [
     "nested variables inside list/object literals: validation (VariablesInAllowedPosition) has accepted the document",
 ]
 TRUSTED = [
+    "`CustomNeverRaises` (a custom scalar's parser raises only ValueError/TypeError) is a hypothesis of the never-raises theorems; "
     "the behaviour of a custom scalar's own parse/parse_literal is a parameter of the theorems; the sample scalars used by the correspondence are written "
     "twice (harness/corr/C07.py custom_scalar, lean/Driver/C07.lean sampleParse) and compared through the real ScalarType machinery",
     "extraction of the coerce_int range test and the _typed_coerce tables (Python ast -> Lean) in corr/C07.py; the finiteness guard of "
@@ -60,7 +63,10 @@ TRUSTED = [
     "wire spelling of a JSON float, and float(int) / float(text) -> repr when RESULT floats are compared (floats never cross the wire as numbers)",
 ]
 
-EXPLANATION = ("Theorems (Props/C07*.lean) are about the model of the code WITH proposed_fixes/C07-A1-A5.patch; the unchanged tree falsifies "
+EXPLANATION_A7 = ("Until proposed_fixes/C07-A7.patch is committed the check FAILS on /repo: a variable value nested ~500+ levels through a recursive "
+                  "input object (and the json.dumps of a deeply nested rejected value inside the error handler) raises RecursionError out of "
+                  "graphql_blocking; signature non-coercion-exception:RecursionError:*. ")
+EXPLANATION = EXPLANATION_A7 + ("Theorems (Props/C07*.lean) are about the model of the code WITH proposed_fixes/C07-A1-A5.patch; the unchanged tree falsifies "
                "int_full_range (A1), variable_sound/literal_variable_equiv (A2), arguments_sound (A3), rejects_structurally_wrong_json (A4) and "
                "rejects_unknown_field on the literal route (A5) and the direct oracle reports a replay for each. Observed, not C07: an object literal at a "
                "custom-scalar argument makes graphql_blocking raise AttributeError (ScalarType.parse_literal reads node.value) - counted under "
@@ -242,6 +248,21 @@ def dispatch_table(fn_name):
         first = body[0]
         if isinstance(first, ast.Assign) and isinstance(first.value, ast.Name) and first.value.id == param:
             return "identity"
+        if (isinstance(first, ast.Try) and len(first.body) == 1 and isinstance(first.body[0], ast.Assign)
+                and isinstance(first.body[0].value, ast.Call) and getattr(first.body[0].value.func, "id", None) == "int"
+                and len(first.body[0].value.args) == 1
+                and len(body) == 2 and isinstance(body[1], ast.If) and isinstance(body[1].body[0], ast.Raise)):
+            # `try: numeric = int(x)  except (OverflowError, ValueError): raise ValueError(...)` then `if numeric != x: raise`
+            caught = set()
+            for h in first.handlers:
+                if not (len(h.body) == 1 and isinstance(h.body[0], ast.Raise) and isinstance(h.body[0].exc, ast.Call)
+                        and getattr(h.body[0].exc.func, "id", None) == "ValueError"):
+                    raise Untranslatable("handler of the float branch of %s does not re-raise ValueError" % fn_name)
+                ts = h.type.elts if isinstance(h.type, ast.Tuple) else [h.type]
+                caught |= {getattr(t_, "id", "?") for t_ in ts}
+            cmp_ = body[1].test
+            if isinstance(cmp_, ast.Compare) and isinstance(cmp_.ops[0], ast.NotEq):
+                return "int-if-equal" + ("-guarded" if {"OverflowError", "ValueError"} <= caught else "-partly-guarded(%s)" % ",".join(sorted(caught)))
         if (isinstance(first, ast.Assign) and isinstance(first.value, ast.Call) and getattr(first.value.func, "id", None) == "int"
                 and len(body) == 2 and isinstance(body[1], ast.If) and isinstance(body[1].body[0], ast.Raise)):
             cmp_ = body[1].test
@@ -260,6 +281,23 @@ def dispatch_table(fn_name):
             rows.append(("else", action(node.orelse) if node.orelse else "pass"))
             break
     return rows
+
+
+def float_catches_overflow():
+    """does the `try:` around `float(maybe_float)` in coerce_float turn OverflowError into ValueError?"""
+    tree = ast.parse(SCALARS_PY.read_text())
+    fn = next((n for n in tree.body if isinstance(n, ast.FunctionDef) and n.name == "coerce_float"), None)
+    if fn is None:
+        raise Untranslatable("coerce_float not found")
+    for st in fn.body:
+        if isinstance(st, ast.Try) and any(isinstance(x, ast.Call) and getattr(x.func, "id", None) == "float" for b in st.body for x in ast.walk(b)):
+            for h in st.handlers:
+                ts = h.type.elts if isinstance(h.type, ast.Tuple) else [h.type]
+                if any(getattr(t_, "id", None) == "OverflowError" for t_ in ts) and len(h.body) == 1 and isinstance(h.body[0], ast.Raise) \
+                        and isinstance(h.body[0].exc, ast.Call) and getattr(h.body[0].exc.func, "id", None) == "ValueError":
+                    return True
+            return False
+    return False
 
 
 def extract(ctx):
@@ -288,6 +326,9 @@ def extract(ctx):
         "/-- the `if / elif` chain of `coerce_int`, in source order: (what is tested, what the branch does). `bool` is a subclass of",
         "    `int`, so a JSON boolean takes the first branch. -/",
         "def coerceIntBranches : List (String × String) := [%s]" % ", ".join('("%s", "%s")' % r for r in int_rows),
+        "",
+        "/-- `coerce_float`: the `try` around `float(x)` turns OverflowError (an int too large for a double) into ValueError -/",
+        "def floatCatchesOverflow : Bool := %s" % ("true" if float_catches_overflow() else "false"),
         "",
         "/-- literal kinds admitted by each specified scalar's `parse_literal` (`_typed_coerce(f, *node classes)`) -/",
         "def literalKinds : List (String × List String) := [",
@@ -480,6 +521,13 @@ class World:
             return ("internal", type(e).__name__)
 
 
+class SampleScalarBoom(KeyError):
+    """what the sample scalar `Tag` deliberately raises (user code raising something else than ValueError / TypeError)"""
+
+
+VAR_ROUTES = ("var", "vardef", "vardef-nullable", "var-nullable-locdefault", "var-looser-type", "nested-list", "nested-obj")
+
+
 def custom_scalar(name, impl):
     """the sample custom scalars: user code with its own `parse` / `parse_literal` (mirrored in lean/Driver/C07.lean)"""
     from py_gql.lang import ast as _ast
@@ -494,7 +542,7 @@ def custom_scalar(name, impl):
             return out[1]
         if out[0] == "refused":
             raise ValueError("%s refuses %r" % (name, v))
-        raise KeyError(name)                     # not ValueError/TypeError: ScalarType.parse lets it through
+        raise SampleScalarBoom(name)             # not ValueError/TypeError: ScalarType.parse lets it through
 
     def parse_literal(node, _variables):
         if impl == "even":
@@ -820,8 +868,13 @@ class Checker:
                          "graphql_blocking neither called the resolver nor reported an error",
                          self.detail(world, spec, g, route, {"check": "outcome", "outcome": list(out)}))
             if out[0] == "internal":
-                # an exception escaping graphql_blocking is C05's subject; here: the resolver did not run
                 ctx.stat("pipeline-internal:%s:%s" % (out[1], feature(reg, t, j)))
+                # (O9) coercion of a JSON VALUE never raises anything but a coercion error: an exception escaping the entry point
+                #      on a route that delivers the value through `variables` (literal routes crash in the validator: C05's subject)
+                if route in VAR_ROUTES and out[1] != "SampleScalarBoom":
+                    ctx.fail("non-coercion-exception:%s:graphql_blocking:%s" % (out[1], feature(reg, t, j)),
+                             "an exception other than a coercion error escaped graphql_blocking for a JSON variable value",
+                             self.detail(world, spec, g, route, {"check": "no-raise", "exception": out[1]}))
         if provided:
             # (O2) stated must-reject classes never reach the resolver (every route that delivers j to position t)
             ds = U.defects(reg, t, j)
@@ -1428,6 +1481,10 @@ def direct_function_oracle(ctx, chk, world, t, j, lit, cv, va):
     for fn, out in (("coerce_value", cv), ("value_from_ast", va)):
         if out[0] == "internal":
             ctx.stat("direct-internal:%s:%s:%s" % (fn, out[1], feature(reg, t, j)))
+            if fn == "coerce_value" and out[1] != "SampleScalarBoom":
+                ctx.fail("non-coercion-exception:%s:coerce_value:%s" % (out[1], feature(reg, t, j)),
+                         "coerce_value let an exception other than CoercionError escape for a JSON value",
+                         {"reg": U.reg_to_jsonable(reg), "fn": fn, "type": ty_str(t), "value": safe_json(j), "check": "direct", "exception": out[1]})
             continue
         ds = U.defects(reg, t, j)
         if fn == "value_from_ast":
@@ -1457,6 +1514,129 @@ def direct_function_oracle(ctx, chk, world, t, j, lit, cv, va):
                  {"reg": U.reg_to_jsonable(reg), "fn": "both", "type": ty_str(t), "value": json.dumps(j), "check": "direct", "literal": list(va), "variable": list(cv)})
 
 
+def safe_json(j):
+    """JSON text of a value for the replay file (non-finite floats as Python's json spells them: Infinity / NaN)"""
+    return json.dumps(j)
+
+
+def run_extremes(ctx):
+    """JSON values at the edge: ±inf, NaN, integers far beyond a double, and containers nested hundreds / thousands deep through a
+    RECURSIVE input object — sent through `variables` to every kind of position and to `coerce_value` directly. The statement's
+    clause: the input is accepted or REJECTED; no exception other than a coercion error escapes (fixes A6, A7). Deep values are
+    not compared with the model (Python's recursion limit is environmental); everything else is, in the ordinary streams."""
+    from py_gql import graphql_blocking
+    from py_gql.exc import CoercionError, InvalidValue, VariablesCoercionError
+    from py_gql.utilities import coerce_value, coerce_variable_values
+    from py_gql.lang import parse
+    reg = U.fixed_registry()
+    names = ["Int", "Float", "String", "Boolean", "ID", "Any", "Even", "E", "Rec", "In2"]
+    types = [N(n) for n in names] + [NN(N("Int")), L(N("Float")), L(NN(N("Rec"))), N("M1")]
+    specs = [[arg("x", t)] for t in types]
+    world = World(reg, specs)
+
+    def deep(kind, depth):
+        if kind == "rec-next":
+            v = {"v": 1}
+            for _ in range(depth):
+                v = {"next": v}
+            return v
+        if kind == "rec-kids":
+            v = {"v": 1}
+            for _ in range(depth):
+                v = {"kids": [v]}
+            return v
+        if kind == "m1-m2":
+            v = {"x": "leaf"}
+            for i in range(depth):
+                v = {"m": v}
+            return v
+        v = 1
+        for _ in range(depth):
+            v = [v]
+        return v
+    scal = [float("inf"), float("-inf"), float("nan"), 10 ** 400, -(10 ** 400), 2 ** 1024, 10 ** 4000, "1e999", "inf", "9" * 4000]
+    for si, t in enumerate(types):
+        vals = list(scal) + [[x] for x in scal[:4]]
+        for kind in ("rec-next", "rec-kids", "m1-m2", "list"):
+            for depth in (40, 450, 600, 3000) if ctx.tier == "quick" else (40, 300, 450, 520, 600, 1000, 3000, 20000):
+                vals.append(deep(kind, depth))
+        for j in vals:
+            ctx.count(2)
+            label = "deep" if is_deep(j) else jkind(j)
+            # (1) coerce_value directly
+            try:
+                coerce_value(j, world.ty_py(t))
+                out = "ok"
+            except (CoercionError, InvalidValue):
+                out = "rejected"
+            except BaseException as e:  # noqa
+                out = type(e).__name__
+                if out != "RecursionError" and out != "SampleScalarBoom":     # RecursionError of the bare function is reported by its callers
+                    ctx.fail("non-coercion-exception:%s:coerce_value:%s@%s" % (out, label, shape(reg, t)),
+                             "coerce_value let an exception other than CoercionError escape for a JSON value",
+                             {"check": "extreme", "entry": "coerce_value", "type": ty_str(t), "value_kind": label, "value": describe(j), "exception": out})
+            ctx.stat("extreme:coerce_value:%s" % out)
+            # (2) coerce_variable_values and (3) the entry point
+            doc = "query($v: %s) { f%d(x: $v) }" % (ty_str(t), si)
+            for entry in ("coerce_variable_values", "graphql_blocking"):
+                world.seen[:] = []
+                try:
+                    if entry == "coerce_variable_values":
+                        coerce_variable_values(world.schema, parse(doc).definitions[0], {"v": j})
+                        out = "ok"
+                    else:
+                        r = graphql_blocking(world.schema, doc, variables={"v": j})
+                        out = "called" if world.seen else ("rejected" if r.errors else "nothing")
+                except VariablesCoercionError:
+                    out = "rejected"
+                except BaseException as e:  # noqa
+                    out = type(e).__name__
+                    if out != "SampleScalarBoom":
+                        ctx.fail("non-coercion-exception:%s:%s:%s@%s" % (out, entry, label, shape(reg, t)),
+                                 "an exception other than a coercion error escaped %s for a JSON variable value" % entry,
+                                 {"check": "extreme", "entry": entry, "type": ty_str(t), "value_kind": label, "value": describe(j), "exception": out,
+                                  "document": doc})
+                ctx.stat("extreme:%s:%s" % (entry, out))
+                if out in ("called", "rejected"):
+                    ctx.nontrivial(("extreme", entry, ty_str(t), describe(j)))
+
+
+def is_deep(j):
+    v = j
+    for _ in range(31):
+        if isinstance(v, dict) and v:
+            v = next(iter(v.values()))
+        elif isinstance(v, list) and v:
+            v = v[0]
+        else:
+            return False
+    return True
+
+
+def describe(j):
+    """replayable description of an extreme value (deep containers by constructor, not by text)"""
+    if is_deep(j):
+        d, v = 0, j
+        kind = None
+        while isinstance(v, (list, dict)) and v:
+            if isinstance(v, dict):
+                k = next(iter(v))
+                kind = kind or {"next": "rec-next", "kids": "rec-kids", "m": "m1-m2"}.get(k, "obj")
+                v = v[k]
+                if isinstance(v, list) and kind == "rec-kids":
+                    v = v[0]
+            else:
+                kind = kind or "list"
+                v = v[0]
+            d += 1
+        return {"deep": kind, "depth": d}
+    if isinstance(j, float):
+        return {"float": repr(j)}
+    if isinstance(j, int) and not isinstance(j, bool) and abs(j) > 2 ** 64:
+        return {"int_pow": [len(str(abs(j))), j < 0]}
+    return {"json": json.dumps(j)}
+
+
 def direct_bad(chk, world, fn, t, j):
     """does the direct oracle still fail for fn on (t, j)? (used for shrinking)"""
     reg = chk.reg
@@ -1481,6 +1661,7 @@ def run(ctx):
     rng = ctx.rng
     # corpus first
     run_corpus(ctx)
+    run_extremes(ctx)
     run_collisions(ctx)
     run_pynum(ctx, ctx.n(3000, 15000))
     # the hand-written registry: all type expressions up to 3 wrappers (quick: all <=2, a sample of depth 3)
@@ -1531,6 +1712,8 @@ def replay(ctx, data, record=False):
     inp = data.get("input", data)
     if "no_longer_checks" in data:
         return True
+    if inp.get("check") == "extreme":
+        return replay_extreme(inp)
     reg = U.reg_from_jsonable(inp["reg"])
     before = sum(f["count"] for f in ctx.found if f["kind"] == "property")
     chk = Checker(ctx, reg, "replay")
@@ -1606,6 +1789,42 @@ def replay(ctx, data, record=False):
     if not record:
         del ctx.found[:]
     return ok
+
+
+def replay_extreme(inp):
+    from py_gql import graphql_blocking
+    from py_gql.exc import CoercionError, InvalidValue, VariablesCoercionError
+    from py_gql.lang import parse
+    from py_gql.utilities import coerce_value, coerce_variable_values
+    reg = U.fixed_registry()
+    t = parse_ty(inp["type"])
+    world = World(reg, [[arg("x", t)]])
+    d = inp["value"]
+    if "deep" in d:
+        v = 1 if d["deep"] == "list" else ({"x": "leaf"} if d["deep"] == "m1-m2" else {"v": 1})
+        for _ in range(d["depth"] - (0 if d["deep"] == "list" else 1)):
+            v = [v] if d["deep"] == "list" else ({"next": v} if d["deep"] == "rec-next" else ({"kids": [v]} if d["deep"] == "rec-kids" else {"m": v}))
+        j = v
+    elif "float" in d:
+        j = float(d["float"])
+    elif "int_pow" in d:
+        j = (10 ** (d["int_pow"][0] - 1)) * (-1 if d["int_pow"][1] else 1)
+    else:
+        j = json.loads(d["json"])
+    try:
+        if inp["entry"] == "coerce_value":
+            coerce_value(j, world.ty_py(t))
+        elif inp["entry"] == "coerce_variable_values":
+            coerce_variable_values(world.schema, parse("query($v: %s) { f0(x: $v) }" % inp["type"]).definitions[0], {"v": j})
+        else:
+            graphql_blocking(world.schema, "query($v: %s) { f0(x: $v) }" % inp["type"], variables={"v": j})
+    except (CoercionError, InvalidValue, VariablesCoercionError):
+        return True
+    except RecursionError:
+        return inp["entry"] == "coerce_value"
+    except BaseException:  # noqa
+        return False
+    return True
 
 
 def parse_ty(s):
